@@ -394,6 +394,11 @@ pub fn remaining_file_content<'a>(input: &'a mut LineReader) -> Result<&'a str, 
         .is_some()
     {}
 
+    // The loop above also ends when the source failed: that is not the end of the comment.
+    if let Err(err) = input.reader.check_io_error() {
+        return Err(err.into());
+    }
+
     let bytes = input.reader.buf();
 
     match (std::str::from_utf8(bytes), bytes.last()) {
